@@ -412,3 +412,38 @@ def step (s : IOState) : List String → IOState × String
   | _ => (s, "bad-op")
 
 end C51
+
+/-! ### the batch-level stretch of `learn` (with the importance weights of the prioritised buffer)
+
+`ℓ row γ` is the per-row element-wise loss (`_dqn_loss` of one row; `dqnLoss` / `crossEntropy` for the model's
+samples), `one` the 1-step batch, `nst` the n-step batch, `w` the importance weights of the 1-step batch flattened to
+`(B,)`.  The scalar loss is the batch mean of `w_i · ℓ_i` under PER and of `ℓ_i` otherwise; the priorities are
+`ℓ_i + prior_eps` in the order of the batch (the same order as the returned indices). -/
+namespace C51
+
+/-- `elementwise_loss` of `learn`: 1-step alone (`γ`), n-step alone (`γ ^ n`), or their row-wise sum -/
+def elemLoss {R : Type} (ℓ : R → Rat → Rat) (combined : Bool) (g : Rat) (n : Nat) (one : List R)
+    (nst : Option (List R)) : List Rat :=
+  match nst with
+  | none => one.map (ℓ · g)
+  | some nb =>
+    if combined then List.zipWith (· + ·) (one.map (ℓ · g)) (nb.map (ℓ · (g ^ n))) else nb.map (ℓ · (g ^ n))
+
+/-- `torch.mean(elementwise_loss * weights.reshape(-1))` under PER, `torch.mean(elementwise_loss)` otherwise -/
+def scalarLoss (per : Bool) (el w : List Rat) : Rat :=
+  if per then mean (List.zipWith (· * ·) el w) else mean el
+
+/-- `new_priorities = elementwise_loss + prior_eps` under PER, `None` otherwise -/
+def newPriorities (per : Bool) (eps : Rat) (el : List Rat) : Option (List Rat) :=
+  if per then some (el.map (· + eps)) else none
+
+/-- the returned `idxs`: the 1-step batch's own, under PER or with an n-step batch -/
+def retIdxs (per nstep : Bool) (idx : List Nat) : Option (List Nat) :=
+  if per || nstep then some idx else none
+
+/-- what a `(B, 1)` weight COLUMN would do (the defect repaired in `learn`, DESIGN §5): `(B,) * (B, 1)` broadcasts
+    to `(B, B)` with entry `(i, j) = ℓ_j · w_i`, and the mean runs over all `B²` entries -/
+def columnLoss (el w : List Rat) : Rat :=
+  mean (w.map fun wi => el.map fun lj => lj * wi).flatten
+
+end C51
